@@ -610,7 +610,7 @@ impl MResult {
         }
         for (pre, k, m2) in scales {
             for (s, v) in &self.needs {
-                put(&mut f, format!("{pre}.needs.{}", s.name()), vec![v * k], EK::Energy, None, m2, false);
+                put(&mut f, format!("{pre}.needs.{}", s.name()), vec![v * k], EK::Need, None, m2, false);
             }
             put(&mut f, format!("{pre}.used.nepus"), vec![tot_nepus * k], EK::Energy, None, m2, false);
             put(&mut f, format!("{pre}.used.epus"), vec![tot_epus * k], EK::Energy, None, m2, false);
